@@ -353,12 +353,25 @@ def main(tier):
                        "(checked here only through the end-to-end comparison with the real instruction(mapper))",
                        "ECALL/EBREAK: registers and memory compared, next pc left to the execution environment",
                        "FENCE words with non-zero reserved fields (fm, rd, rs1) that amoco does not decode are skipped"]
-    ck.trusted += ["harness/translate_riscv.py (Python ast → DSL; validated by executing the DSL against the real code)",
+    ck.assumptions += ["x86: only the helper formulas are modelled and proved; the i_XXX bodies of x64/asm.py and x86/asm.py are compared "
+                       "with native execution on this host CPU (differential, sampled) — the x86 half of C06 is partial",
+                       "x86: flags the SDM leaves undefined for the instruction/operand values are not compared; faulting encodings are skipped",
+                       "x86 32-bit mode: only encodings whose bytes and meaning coincide in both modes (no REX, no 0x67, no stack width dependence)"]
+    ck.trusted += ["the host CPU as the x86 reference (harness/native/x86exec.c loads/stores all 16 registers and the status flags around the bytes)",
+                   "my table of architecturally undefined flags per mnemonic (rv_x86.undefined_flags), from the SDM instruction pages",
+                   "harness/translate_riscv.py (Python ast → DSL; validated by executing the DSL against the real code)",
                    "my reading of the RISC-V manual, written twice (Lean rvRef, Python rv_ref.py) and compared on every case",
                    "compiled Lean driver (evaluation of the model definitions)"]
     return ck.finish("RISC-V: every base mnemonic of RV32I/RV64I × words with boundary/random fields × states with boundary/random "
                      "register and pc values, memory bytes chosen around the effective address, plus arbitrary words on the base "
-                     "opcodes; non-trivial = decoded by amoco to the manual's mnemonic (distinct by word+state)")
+                     "opcodes; non-trivial = decoded by amoco to the manual's mnemonic (distinct by word+state).  x86 helpers: "
+                     "AddWithCarry/SubWithBorrow/halfcarry/halfborrow/rotations on boundary+random constants of widths 1..64, parity8 on "
+                     "all 256 bytes, the complete CONDITION_CODES table, CF of the shifts for boundary counts, CMP flags.  x86 native: "
+                     "encodings of ~60 GP integer mnemonics built from templates (all operand sizes, REX.WRXB, 66/67 prefixes, register and "
+                     "memory forms incl. SIB / disp8 / disp32 / rip-relative / absolute) on boundary+random registers, flags and memory",
+                     explanation="RISC-V: proof (rv_expected_correct for all states/words; generated table = expected by decide) tied by "
+                     "translator + correspondence.  x86: proofs only for the shared flag/extension/condition helpers; instruction bodies "
+                     "are judged differentially against the CPU (partial).")
 
 
 def replay(path):
